@@ -32,6 +32,12 @@ def _apply(root, change):
         if r.returncode != 0:
             return 'patch does not apply (the tree moved on)'
         return None
+    if kind == 'twinpatch':
+        pf = os.path.join(VERIF, 'twins', change[1], 'patch.diff')
+        r = subprocess.run(['patch', '-p1', '-s', '-f', '-d', root, '-i', pf], capture_output=True, text=True)
+        if r.returncode != 0:
+            return 'twin patch does not apply (the tree moved on)'
+        return None
     if kind == 'seeded':
         pf = os.path.join(VERIF, 'seeded', change[1], 'patch.diff')
         r = subprocess.run(['patch', '-p1', '-s', '-f', '-d', root, '-i', pf], capture_output=True, text=True)
@@ -105,8 +111,22 @@ def seeded_items():
     return out
 
 
+def twin_items():
+    """Kept refactorings from sub-agents (/verif/twins/<id>/): every check whose rules read a file the patch touches must stay silent."""
+    import json
+    out = []
+    d = os.path.join(VERIF, 'twins')
+    if os.path.isdir(d):
+        for tid in sorted(os.listdir(d)):
+            mp = os.path.join(d, tid, 'meta.json')
+            if os.path.exists(mp) and os.path.exists(os.path.join(d, tid, 'patch.diff')):
+                for prop in json.load(open(mp)).get('replay_for', []):
+                    out.append((prop, f'twin:{tid}', ('twinpatch', tid), None))
+    return out
+
+
 def run_all(props=None, repo_root='/repo', jobs=None):
-    items = [(p, i, c, e, repo_root) for (p, i, c, e) in MUTANTS + TWINS + seeded_items() if props is None or p in props]
+    items = [(p, i, c, e, repo_root) for (p, i, c, e) in MUTANTS + TWINS + seeded_items() + twin_items() if props is None or p in props]
     jobs = jobs or min(16, os.cpu_count() or 4)
     if len(items) <= 2 or jobs == 1:
         return [_one(x) for x in items]
@@ -117,7 +137,7 @@ def run_all(props=None, repo_root='/repo', jobs=None):
 def run_for(prop, repo_root='/repo'):
     res = run_all({prop}, repo_root)
     muts = [r for r in res if any(r[1] == m[1] and m[0] == prop for m in MUTANTS) or r[1].startswith('seeded:')]
-    twins = [r for r in res if any(r[1] == t[1] and t[0] == prop for t in TWINS)]
+    twins = [r for r in res if any(r[1] == t[1] and t[0] == prop for t in TWINS) or r[1].startswith('twin:')]
     return {
         'mutants': len(muts),
         'killed': sum(1 for r in muts if r[2].startswith('killed')),
